@@ -210,6 +210,14 @@ func genTime(r *RNG) (int64, int, int) {
 	if local < minSec || local > maxSec {
 		off = 0
 	}
+	// the edge of the domain: a local year of 9999 (or 1) whose instant, read in UTC, is in year 10000 (or 0)
+	if off != 0 && r.Chance(1, 6) {
+		if off < 0 {
+			sec = maxSec - int64(r.Intn(-off*60)) - int64(off)*60
+		} else {
+			sec = minSec + int64(r.Intn(off*60)) - int64(off)*60
+		}
+	}
 	return sec, nsec, off
 }
 
